@@ -14,10 +14,15 @@ def build(shape, with_peq=False, discs=None, repr_=None):
     for k, (vk, fl) in enumerate(vs):
         fields = []
         for i, c in enumerate(fl):
+            both = c == 'x'     # `ignore` and `method` on one field: ignored
+            if both:
+                c = 'i'
             ty, p = FIELD[c]
             a = {}
             if p is not None:
                 a['Hash'] = dict(p)
+                if both:
+                    a['Hash']['method'] = 'hash_m'
                 if with_peq and c == 'i':
                     a['PartialEq'] = {'ignore': True}
             f = F(ty, S.FNAMES[i] if vk == 'named' else None, **a)
@@ -123,6 +128,9 @@ def gen(tier, seed):
             n += 1
     finally:
         model.TYPE_WRAP = None
+    for k, sh in enumerate([('struct', [('named', ['p', 'x', 'w'])]), ('struct', [('tuple', ['x', 'p'])]), ('enum', [('tuple', ['p', 'x']), ('named', ['x', 'm', 'p']), ('unit', [])])]):
+        mods.append(emit(f'm{n:04d}', f'{S.shape_id(sh)}/peq={k % 2}/ignore+method on one field', sh, k % 2 == 1))
+        n += 1
     from .runner import empty_enum_module
     mods.append(empty_enum_module(f'm{n:04d}', 'Hash', 'core::hash::Hash', FUNCTIONS))
     return mods
